@@ -107,4 +107,14 @@ theorem create_success_writes_all (s s' : St) (data : List (Key × Val))
   · cases h
   · cases h; exact KV.has_putAll_of_mem _ _ _ hk
 
+
+/-- frame: a successful `BatchCreate` leaves every key it was not asked to write as it was -/
+theorem create_success_frame (s s' : St) (data : List (Key × Val))
+    (h : batchCreate s data = .ok s') (k : Key) (hk : k ∉ data.map (·.1)) :
+    s'.kv.get k = s.kv.get k := by
+  unfold batchCreate at h
+  split at h
+  · cases h
+  · cases h; exact KV.get_putAll_not_mem _ _ _ hk
+
 end Eru.Props.C23
